@@ -6,6 +6,7 @@ Oracle = a dict from concrete key tuples to observer lists + the set of stored k
 observer and the parent of every stored key at or below it is visited by the pattern (length <= pattern, levels match).
 """
 import hashlib
+import time
 import itertools
 import json
 import os
@@ -85,7 +86,9 @@ def build_router_harness():
     for f in os.listdir(lib.BUILD):
         if f.startswith("rt-") and not f.endswith(".tmp") and ".obj." not in f:
             try:
-                os.unlink(os.path.join(lib.BUILD, f))
+                # only old builds: a concurrent check against another tree may still be using its own
+                if time.time() - os.path.getmtime(os.path.join(lib.BUILD, f)) > 3600:
+                    os.unlink(os.path.join(lib.BUILD, f))
             except OSError:
                 pass
     odir = out + ".obj.%d" % os.getpid()
@@ -329,7 +332,7 @@ def valid(case):
 
 # ------------------------------------------------------------------ generators
 
-NAME_POOL = ["a", "ab", "b", "ba", "aa", "abb"]
+NAME_POOL = ["a", "ab", "b", "ba", "aa", "abb", "a!b"]      # `!` stands for a `/` INSIDE a level name (see rt_main.cpp decodeName)
 
 
 def gen_regex(rng):
@@ -402,7 +405,13 @@ def gen_case(rng, maxops, force_sig=None):
     kind = rng.pick(["S", "C"])
     sig = force_sig or rng.pick(SIGS)
     nnames = 2 + rng.below(3)
-    names = NAME_POOL[:3] if rng.chance(2, 3) else sorted(set(rng.pick(NAME_POOL) for _ in range(nnames + 1)))
+    k3 = rng.below(6)
+    if k3 < 3:
+        names = NAME_POOL[:3]
+    elif k3 == 3:
+        names = ["a", "b", "a!b"]          # a level name containing the separator character: ("a/b") vs ("a","b")
+    else:
+        names = sorted(set(rng.pick(NAME_POOL) for _ in range(nnames + 1)))
     maxdepth = 2 + rng.below(2) if rng.chance(4, 5) else 4
     nexth = [0]
 
